@@ -142,6 +142,29 @@ def sg_register(prog: Program) -> RuleResult:
             n_nonpred += 1
             good = len(added) == 1 and len(added[0].args) == 1 and repr(added[0].args[0]) == "WrappedInstance(instance)" and not other_guard
             reg_ok = reg_ok and good
+    # ... and the graph files the wrapper under its class in the table the enumeration reads - that very list, on every path
+    sg_ = prog.cls("symbol_graph.SymbolGraph")
+    an_ = sg_.methods.get("add_node")
+    if an_ is None:
+        raise AnalysisError("SG-REGISTER: SymbolGraph.add_node vanished")
+    wparam = an_.params[1] if len(an_.params) > 1 else None
+    files = [c for c in calls_in(an_.node) if isinstance(c.func, ast.Attribute) and c.func.attr in ("append", "add") and c.args and isinstance(c.args[0], ast.Name) and c.args[0].id == wparam]
+    why = None
+    if not files:
+        why = "the wrapper is not appended to any per-class list"
+    for c in files:
+        recv = c.func.value
+        if isinstance(recv, ast.Name):
+            defs = [x for x in walk_local(an_.node) if isinstance(x, (ast.Assign, ast.AugAssign, ast.AnnAssign)) and any(isinstance(t, ast.Name) and t.id == recv.id for t in (x.targets if isinstance(x, ast.Assign) else [x.target]))]
+            if len(defs) != 1 or not (isinstance(defs[0], ast.Assign) and "_class_to_wrapped_instances" in src(defs[0].value) and isinstance(defs[0].value, (ast.Subscript, ast.Call))
+                                    and not isinstance(defs[0].value, (ast.ListComp,))):
+                why = f"`{recv.id}` is bound {len(defs)} times ({'; '.join(src(d)[:50] for d in defs)}): on some path the wrapper goes into a list that is not the table's"
+            elif isinstance(defs[0].value, ast.Call) and call_name(defs[0].value) not in ("setdefault", "get", "__getitem__"):
+                why = f"`{src(defs[0])[:60]}` makes a copy: the wrapper goes into the copy"
+        elif "_class_to_wrapped_instances" not in src(recv):
+            why = f"the wrapper is appended to `{src(recv)[:50]}`, not to the per-class table"
+    r.check(why is None, "SymbolGraph.add_node#filed-in-the-per-class-table", site(an_, files[0]) if files else site(an_), src(files[0])[:80] if files else "", "the wrapper is appended to the list the table holds for its class",
+            f"{why}: the instance has a node and an index entry but is missing from the list let(T, domain=None) enumerates")
     r.check(reg_ok and n_nonpred >= 1, "update_cache#registers-all-but-predicates", site(upd), "", "every non-Predicate instance is wrapped and added to the graph",
             "the registration skips instances other than Predicates, or does not add WrappedInstance(instance) to the symbol graph")
     return r
